@@ -47,10 +47,10 @@ MayRefuse(x, k) ==
   \/ k = "__typename" /\ x.op = "subscription"        \* Oct 2021 5.2.3.1: not a valid subscription root field
 TypenameRequired(x) == \A k \in PKinds(x) : ~MayRefuse(x, k)
 
-TypenameInField(x, f, data, rootName) ==
+TypenameInField(x, f, data, rootVal) ==
   LET k == KindOfName(x.op, f.name)
       v == Get(data, f.key)
-  IN CASE k = "__typename" -> v = Str(rootName)
+  IN CASE k = "__typename" -> v = rootVal[f.key]
        \* below a field __typename can only be judged where the parent object was produced
        [] k = "nested"     -> v \in {Missing, Null} \/ Get(v, "__typename") = Str(NestedType(RootName(x.op)))
        [] k = "_entities"  -> v \in {Missing, Null} \/ (v.k = "list" /\ \A n \in 1..Len(v.items) : v.items[n] = Null \/ Get(v.items[n], "__typename") = Str(TS.entity.type))
@@ -60,7 +60,10 @@ TypenameOKAs(x, rootName) ==
   IF x.op = "subscription"
   THEN \A i \in 1..Len(fs) : \A j \in 1..Len(x.obs.resps) : TypenameInField(x, fs[i], x.obs.resps[j].data, rootName)
   ELSE Len(x.obs.resps) = 1 /\ \A i \in 1..Len(fs) : TypenameInField(x, fs[i], x.obs.resps[1].data, rootName)
-TypenameOK(x) == TypenameOKAs(x, RootName(x.op))
+RootKeys(x) == LET fs == PFields(x) IN {fs[i].key : i \in 1..Len(fs)}
+TypenameOK(x) == TypenameOKAs(x, [k \in RootKeys(x) |-> Str(RootName(x.op))])
+\* DevStaticEmptyMutationTypename: the substituted root reports its own name where its fragments apply, nothing elsewhere
+TypenameOKDev(x) == TypenameOKAs(x, [k \in RootKeys(x) |-> IF k \in EmptyRootKeys(x, x.doc) THEN Str("EmptyMutation") ELSE Missing])
 
 Failures(x) ==
   (IF ~MetadataAllowed(x.s, x.r) /\ ObsMetaKeys(x) # {} THEN {"metadata"} ELSE {})
@@ -73,7 +76,7 @@ JoinSet(S) == IF S = {} THEN "" ELSE LET m == CHOOSE y \in S : TRUE IN
 
 Explained(x, D) ==
   /\ \A d \in D : Trigger(d, x, x.doc)
-  /\ ("typename" \in Failures(x) => "DevStaticEmptyMutationTypename" \in D /\ TypenameOKAs(x, "EmptyMutation"))
+  /\ ("typename" \in Failures(x) => "DevStaticEmptyMutationTypename" \in D /\ TypenameOKDev(x))
   /\ ObsMetaKeys(x) \subseteq ModelMayServe(x, x.doc, D)
   /\ ObsLog(x) \subseteq ModelMayInvoke(x, x.doc, D)
 Verdict(x) ==
